@@ -1179,8 +1179,21 @@ func (z *Decimal) setBits64(neg bool, x uint64, exp int64) *Decimal {
 	// x != 0
 	z.form = finite
 	z.mant = z.mant.setUint64(x)
-	z.setExpAndRound(exp+int64(len(z.mant))*_DW-dnorm(z.mant), 0)
+	z.setExpAndRound(addExp(exp, int64(len(z.mant))*_DW-dnorm(z.mant)), 0)
 	return z
+}
+
+// addExp returns a+b, saturated at the int64 bounds so that an exponent far
+// outside [MinExp, MaxExp] stays on the same side after the addition.
+func addExp(a, b int64) int64 {
+	c := a + b
+	switch {
+	case b > 0 && c < a:
+		return math.MaxInt64
+	case b < 0 && c > a:
+		return math.MinInt64
+	}
+	return c
 }
 
 // SetInt64 sets z to the (possibly rounded) value of x and returns z. If z's
@@ -1240,7 +1253,7 @@ func (z *Decimal) SetMantExp(mant *Decimal, exp int) *Decimal {
 	if z.form != finite {
 		return z
 	}
-	z.setExpAndRound(int64(z.exp)+int64(exp), 0)
+	z.setExpAndRound(addExp(int64(exp), int64(z.exp)), 0)
 	return z
 }
 
@@ -1693,7 +1706,7 @@ func (z *Decimal) SetBitsExp(mant []Word, exp int64) *Decimal {
 			}
 			z.prec = umax32(uint32(digits), DefaultDecimalPrec)
 		}
-		z.setExpAndRound(exp-dnorm(z.mant)-int64(len(mant)-len(z.mant))*_DW, 0)
+		z.setExpAndRound(addExp(exp, -dnorm(z.mant)-int64(len(mant)-len(z.mant))*_DW), 0)
 	} else {
 		z.acc = Exact
 		z.form = zero
